@@ -154,4 +154,21 @@ PROPS = {
             "as C16",
         ],
     },
+    'C14': {
+        'streams': ['epoll'],
+        'shrink': {},
+        'assumptions': [
+            "partial: the theorems cover every interleaving of the MODEL (kernel epoll as interest set + level-triggered readiness, acquire/release atomics as atomic steps, the pool as 'a queued job eventually starts'); the code is tied to it by acceptance of recorded event logs of real runs - schedules are sampled",
+            "logging discipline and the normalisations of oracle/epoll_o.ml (DEL takes effect between its log entry and the stream drop; a release store may take effect after a later load of the loop)",
+            "liveness ('eventually dispatched') is proved as: never stuck behind in_flight without a job + the Wait/dispatch steps are enabled; on the code a 5 s client timeout stands in for 'eventually'",
+        ],
+    },
+    'C15': {
+        'streams': ['epoll'],
+        'shrink': {},
+        'assumptions': [
+            "as C14; memory safety of the raw pointers is proved as 'every enabled step of every reachable model state satisfies its safety obligation' and observed on the code through the replay of real logs",
+            "recorded finding F25: records are leaked (C15_no_leak_refuted); descriptor release is proved and observed",
+        ],
+    },
 }
